@@ -468,6 +468,7 @@ pub const FUNCTIONS: &[&str] = &[
 pub fn run(prop: &str, args: &Args) -> Report {
     let cfgs = configs(prop, args);
     let mut rep = par_run(cfgs, args.threads, |c| check_config(prop, c));
+    crate::validate::validate_spline(args.seed, &mut rep);
     for f in FUNCTIONS {
         rep.functions.insert(f.to_string());
     }
